@@ -144,6 +144,16 @@ func (s *c09server) serve(c *net.TCPConn) {
 					buf[i] = 0xee
 				}
 			}
+		case "trickle": // one byte every Ms until the client goes away (or 20 s)
+			for t0 := time.Now(); time.Since(t0) < 20*time.Second; {
+				c.SetWriteDeadline(time.Now().Add(time.Second))
+				if _, err := c.Write([]byte{0x2e}); err != nil {
+					break
+				}
+				time.Sleep(time.Duration(st.Ms) * time.Millisecond)
+			}
+			c.Close()
+			return
 		case "hold": // until the client goes away (or 20 s)
 			c.SetReadDeadline(time.Now().Add(20 * time.Second))
 			buf := make([]byte, 4096)
@@ -324,6 +334,10 @@ func c09faults() []c09fault {
 		{Name: "05 00 before the greeting is read", Steps: []c09step{{Op: "send", Bytes: []byte{5, 0}}, g}, Want: true},
 		{Name: "05 00 then close", Steps: []c09step{g, {Op: "send", Bytes: []byte{5, 0}}, {Op: "close"}}, Want: true},
 		{Name: "05 00 then RST a moment later", Steps: []c09step{g, {Op: "send", Bytes: []byte{5, 0}}, {Op: "sleep", Ms: 30}, {Op: "rst"}}, Want: true},
+		{Name: "05 00 then an endless trickle (a byte every 20 ms)", Steps: []c09step{g, {Op: "send", Bytes: []byte{5, 0}}, {Op: "trickle", Ms: 20}}, Want: true},
+		{Name: "05 ff then an endless trickle", Steps: []c09step{g, {Op: "send", Bytes: []byte{5, 0xff}}, {Op: "trickle", Ms: 20}}},
+		{Name: "endless trickle instead of a reply", Steps: []c09step{g, {Op: "sleep", Ms: 10}, {Op: "trickle", Ms: 30}}},
+		{Name: "05 00 then an endless flood", Steps: []c09step{g, {Op: "send", Bytes: []byte{5, 0}}, {Op: "flood", N: 1 << 30, Bytes: []byte{1}}}, Want: true},
 		{Name: "04 5a (SOCKS4 grant)", Steps: []c09step{g, {Op: "send", Bytes: []byte{4, 0x5a}}}},
 		{Name: "05 02 (auth required)", Steps: []c09step{g, {Op: "send", Bytes: []byte{5, 2}}}},
 		{Name: "05 ff (no acceptable method)", Steps: []c09step{g, {Op: "send", Bytes: []byte{5, 0xff}}}},
